@@ -169,7 +169,12 @@ func (fm *Server) Init(ctx context.Context, req *pb.InitRequest) (*pb.Response, 
 	fm.lock.Lock()
 	fm.status = FuseManagerWaitInit
 	defer func() {
-		fm.status = FuseManagerReady
+		// Become ready only once a filesystem exists; otherwise keep waiting
+		// for a successful Init so that requests are refused instead of
+		// dereferencing a nil filesystem.
+		if fm.curFs != nil {
+			fm.status = FuseManagerReady
+		}
 		fm.lock.Unlock()
 	}()
 
